@@ -18,9 +18,22 @@ namespace
     {
         auto r = right.data<d_array>();
         std::stringstream sstream;
+        size_t index = 0;
         for (auto& it : *r)
         {
-            sstream << it.data<d_string, std::string>();
+            if (it.is<t_string>())
+            {
+                sstream << it.data<d_string, std::string>();
+            }
+            else if (it.is<t_text>())
+            {
+                sstream << it.data<d_text>()->value();
+            }
+            else
+            { // neither text nor string: skipped
+                runtime.__logmsg(err::ExpectedArrayTypeMissmatchWeak(runtime.context_active().current_frame().diag_info_from_position(), index, std::array<sqf::runtime::type, 2> { t_text(), t_string() }, it.type()));
+            }
+            index++;
         }
         return std::make_shared<d_text>(sstream.str());
     }
